@@ -136,6 +136,28 @@ def run_shard(spec):
             cnt["context_programs"] = cnt.get("context_programs", 0) + 1
             res["evaluations"] += 1
             res["distinct"].append("ctx" + repr([(f["codes"]) for f in files]))
+    # 3c. chains: the <n> code of each directive is the size of the NEXT directive (a label difference), and the last one's code is a constant
+    #     that may be defined at the very end: evaluating one directive makes the assembler evaluate the following ones in the middle of it
+    for i in range(100 if spec["tier"] == "quick" else 600):
+        depth = rnd.choice([2, 2, 3, 4])
+        texts = [_case_mix(rnd, "".join(rnd.choice(ALPHABET[1:]) for _ in range(rnd.randrange(0 if rnd.random() < 0.2 else 1, 6)))) for _ in range(depth)]
+        sizes = [2 * ((len(tx) + 1 + 2) // 3) for tx in texts]
+        kval = rnd.randrange(40)
+        late = rnd.random() < 0.7
+        lines = [".link 2000"] + ([] if late else [f"kq = {kval}."])
+        codes = []
+        for d in range(depth):
+            nxt = f"<l{d + 2}-l{d + 1}>" if d < depth - 1 else "<kq>"
+            lines.append(f'l{d}:\t.rad50 "{texts[d]}" {nxt}')
+            codes.append([ALPHABET.index(c.upper()) for c in texts[d]] + [sizes[d + 1] if d < depth - 1 else kval])
+        lines.append(f"l{depth}:")
+        if late:
+            lines.append(f"kq = {kval}.")
+        case = {"kind": "ctx", "files": [{"name": "/c15/chain.mac", "text": "\n".join(lines) + "\n", "codes": codes}]}
+        res["violations"].extend(run_case(case, cnt))
+        cnt["chain_programs"] = cnt.get("chain_programs", 0) + 1
+        res["evaluations"] += 1
+        res["distinct"].append("chain" + repr(codes))
     # 4. rejections: every non-alphabet printable ASCII char, <n> 40..63 (+ some larger), over-long ^R
     rej = []
     if part == 0:
